@@ -19,4 +19,14 @@ var rules = []Rule{
 		Props: []string{"C16", "C18"}, Floor: 96, Run: ruleTabLn},
 	{ID: "E2.payload", Doc: "NaN payload registry: packing, unpacking, operation names, arity and construction sites agree",
 		Props: []string{"C15"}, Floor: 60, Run: ruleTabPayload},
+	{ID: "E3.pred", Doc: "class predicates are exactly mask tests with the BID masks and partition all bit patterns",
+		Props: []string{"C15", "C12", "C04", "C19"}, Floor: 6, Run: ruleLayoutPredicates},
+	{ID: "E3.codec", Doc: "compose/decompose bit fields equal the IEEE 754-2008 BID layout for both forms (bit-provenance evaluation of masks and shifts per branch)",
+		Props: []string{"C12", "C19"}, Floor: 11, Run: ruleLayoutCompose},
+	{ID: "E3.binary", Doc: "MarshalBinary/UnmarshalBinary bodies are nothing but inverse 16-entry big-endian byte tables behind a length guard",
+		Props: []string{"C12"}, Floor: 39, Run: ruleLayoutBinary},
+	{ID: "E3.decompose", Doc: "Decompose writes the coefficient of d.decompose() as a 16-entry big-endian byte table",
+		Props: []string{"C14"}, Floor: 18, Run: ruleLayoutDecompose},
+	{ID: "E3.literals", Doc: "every constant Decimal literal decodes under the BID layout to the value its constructor claims; only the frozen set of functions builds a Decimal from raw words",
+		Props: []string{"C12", "C15", "C19"}, Floor: 15, Run: ruleLayoutLiterals},
 }
